@@ -1616,7 +1616,7 @@ def run(ctx: Ctx) -> None:
     ctx.exhaustive_scopes.append("nesting depth 0-3 x exception thrown at no level / each level x thrown by user code / by a rejected IR operation")
     # random histories, sharded
     shards = 16
-    per = ctx.pick(60, 1500)
+    per = ctx.pick(60, 800)
     parts = pmap(_shard, [(f"{ctx.seed}:{i}", per, max(2, per // 10)) for i in range(shards)])
     for p in parts:
         ctx.merge(p)
